@@ -24,6 +24,8 @@ to three properties; a hosting check keeps the violations of its own property:
 """
 from __future__ import annotations
 
+from .excfam import family
+
 import asyncio
 import random
 
@@ -110,7 +112,7 @@ async def soak(loop, acc, V, seed, rounds=12, rate=0.08, chunking="whole", windo
                 rec["res"] = "cancelled"
                 raise
             except BaseException as e:  # noqa: BLE001
-                rec["res"] = "exc:" + type(e).__name__
+                rec["res"] = "exc:" + family(e)
                 raise
             rec["res"], rec["nrx"] = "ok", len(ncp_rx)
             return r
@@ -201,7 +203,7 @@ async def soak(loop, acc, V, seed, rounds=12, rate=0.08, chunking="whole", windo
                         r["outcome"] = "cancelled"
                         raise
                     except BaseException as ex:  # noqa: BLE001
-                        r["outcome"], r["exc"] = type(ex).__name__, str(ex)[:80]
+                        r["outcome"], r["exc"] = family(ex), str(ex)[:80]
                     r["t_end"], r["hrx_at_end"] = clock(), len(host_rx)
 
                 tasks.append(asyncio.ensure_future(one()))
